@@ -77,12 +77,9 @@ theorem ShapeOK_of_takeRest_eq (b b' : B) (h : takeRest b' = takeRest b) (hb : S
 
 /-! ### the schema side -/
 
-def isIntDT : DataType → Bool
-  | .int8 | .int16 | .int32 | .int64 | .uint8 | .uint16 | .uint32 | .uint64 => true
-  | _ => false
-
 mutual
-/-- no `FixedSizeBinary(0)`, dictionary keys of an integer type -/
+/-- no `FixedSizeBinary(0)` (known finding).  (Dictionary keys of an integer type used to be demanded here too: now
+`build_builder` refuses other key types — repo fix 7359431 — and `BuiltFor` carries `isIntDT k`.) -/
 def SchemaOK : DataType → Prop
   | .fixedSizeBinary n => n ≠ 0
   | .list f => SchemaOKF f
@@ -90,7 +87,7 @@ def SchemaOK : DataType → Prop
   | .fixedSizeList f _ => SchemaOKF f
   | .map f _ => SchemaOKF f
   | .struct fs => SchemaOKFs fs
-  | .dictionary k v => isIntDT k = true ∧ SchemaOK v
+  | .dictionary _ v => SchemaOK v
   | .union fs _ => SchemaOKU fs
   | _ => True
 def SchemaOKF : Field → Prop
@@ -177,10 +174,10 @@ theorem BuiltFor_ShapeOK : ∀ (b : B) (dt : DataType) (nl : Bool), BuiltFor dt 
     exact BuiltForL_ShapeOKL fs fields hbl hs
   | .dictionary _ idx vals _, dt, nl, hb, hs => by
     simp only [BuiltFor] at hb
-    obtain ⟨k, vdt, rfl, hbi, hbv⟩ := hb
+    obtain ⟨k, vdt, rfl, hk, hbi, hbv⟩ := hb
     simp only [SchemaOK] at hs
     simp only [ShapeOK]
-    exact ⟨isIntLeaf_of_builtFor idx k nl hs.1 hbi, BuiltFor_ShapeOK vals _ _ hbv hs.2⟩
+    exact ⟨isIntLeaf_of_builtFor idx k nl hk hbi, BuiltFor_ShapeOK vals _ _ hbv hs⟩
   | .union _ fs _ _ _, dt, nl, hb, hs => by
     simp only [BuiltFor] at hb
     obtain ⟨ufs, mode, rfl, hbu⟩ := hb
